@@ -53,7 +53,7 @@ func NewPKI() *PKI {
 type Ident struct {
 	Class string
 	Leaf  *certs.Certificate
-	Inter *certs.Certificate // presented intermediate (may be nil)
+	Inter *certs.Certificate  // presented intermediate (may be nil)
 	Key   *keys.X25519KeyPair // the private key this endpoint actually holds
 	Owns  bool                // Key matches Leaf.PublicKey
 }
